@@ -657,6 +657,35 @@ def _compare(B, tag, got, want):
             B.eq('%s: %s' % (tag, k), a, b)
 
 
+def case_controller(B, cfg):
+    """ProblemModellingController.fix_parameters: histories of fix / re-fix /
+    release calls against the posterior assembled by hand under the single
+    net dictionary (the case of C14)"""
+    from . import c14
+    return c14.case_posterior(B, cfg)
+
+
+def controller_jobs():
+    from . import c14
+    U = hier.unit
+    seqs = [[[(0, 'v')], [(0, 'v')]], [[(1, 'v')], [(1, 'n')]],
+            [[(0, 'v')], [(0, 'n'), (3, 'v')]],
+            [[(0, 'v'), (2, 'v')], [(2, 'v')], [(0, 'n')]],
+            [[(3, 'v')], [(1, 'v')], [(3, 'n'), (1, 'v')]],
+            [[(0, 'v'), (1, 'v'), (2, 'v')], [(0, 'n'), (1, 'n'), (2, 'n')]]]
+    out = []
+    for k, seq in enumerate(seqs):
+        out.append(('controller', 'case_controller', dict(
+            model='sym', n_out=2, ems=['Gaussian', 'ConstantAndMultiplicative'],
+            n_ids=2, ids=['b', 'a'], fix_seq=seq, variant={}), c14.FACADE))
+        out.append(('controller', 'case_controller', dict(
+            model='sym', n_out=1, ems=['Gaussian'], n_ids=2, ids=['b', 'a'],
+            units=[[U('gaussian'), U('pooled')],
+                   [U('lognormal_nc'), U('hetero')]][k % 2], fix_seq=seq,
+            variant={'order': 'interleaved'}), c14.FACADE))
+    return out
+
+
 def objects(tier):
     q = tier == 'quick'
     U = hier.unit
@@ -727,6 +756,7 @@ def jobs(tier):
                 cfg['via_copy'] = True
             out.append(('step', 'case_step', cfg, {
                 'diffcheck': j % 5 == 0, 'terms_labels': r': sample\['}))
+    out += controller_jobs()
     return out
 
 
@@ -734,11 +764,11 @@ BOUNDS = dict(
     quick='19 reducible objects (2 predictive, 2 population predictive models) with 1..4 parameters; all (pre-state, call '
           'dictionary) pairs up to 120 per object (evenly spaced when there '
           'are more: 2^n * 3^n); every second transition with an evaluation '
-          'between the two calls',
+          'between the two calls; 6 histories of fix / re-fix / release calls '
+          'on the problem controller (individual and hierarchical), against '
+          'the posterior assembled by hand',
     thorough='26 objects incl. 2-dim, covariate and heterogeneous population '
              'models, 4-parameter mechanistic model, two-output likelihood; '
              '<= 700 transitions per object',
-    outside='ProblemModellingController.fix_parameters here (its histories '
-            'of fix / re-fix / release calls are decided in C14 against the '
-            'posterior assembled by hand); SBML-backed ReducedMechanisticModel (C09/C11)')
+    outside='SBML-backed ReducedMechanisticModel (C09/C11)')
 TRUSTED = ['z3', 'RNG stub', 'the unfixed objects as reference (C01, C04, C05)']
